@@ -71,12 +71,14 @@ var intended = map[string]struct {
 	typ, stride string
 	fields      []string
 }{
-	"cmbbs.PasswdQueryPasswd": {"UserecRaw", "USEREC_RAW_SZ", []string{"PasswdHash"}},
-	"cmbbs.PasswdQueryUserLevel": {"UserecRaw", "USEREC_RAW_SZ", []string{"UserLevel"}},
-	"cmbbs.PasswdUpdatePasswd": {"UserecRaw", "USEREC_RAW_SZ", []string{"PasswdHash"}},
-	"cmbbs.PasswdUpdateEmail": {"UserecRaw", "USEREC_RAW_SZ", []string{"Email"}},
-	"cache.passwdUpdateMoney": {"UserecRaw", "USEREC_RAW_SZ", []string{"Money"}},
-	"cmbbs.PasswdGetUserLevel2": {"Userec2Raw", "", []string{"UserLevel2"}},
+	"cmbbs.PasswdQuery":            {"UserecRaw", "USEREC_RAW_SZ", []string{}},
+	"cmbbs.PasswdUpdate":           {"UserecRaw", "USEREC_RAW_SZ", []string{}},
+	"cmbbs.PasswdQueryPasswd":      {"UserecRaw", "USEREC_RAW_SZ", []string{"PasswdHash"}},
+	"cmbbs.PasswdQueryUserLevel":   {"UserecRaw", "USEREC_RAW_SZ", []string{"UserLevel"}},
+	"cmbbs.PasswdUpdatePasswd":     {"UserecRaw", "USEREC_RAW_SZ", []string{"PasswdHash"}},
+	"cmbbs.PasswdUpdateEmail":      {"UserecRaw", "USEREC_RAW_SZ", []string{"Email"}},
+	"cache.passwdUpdateMoney":      {"UserecRaw", "USEREC_RAW_SZ", []string{"Money"}},
+	"cmbbs.PasswdGetUserLevel2":    {"Userec2Raw", "", []string{"UserLevel2"}},
 	"cmbbs.PasswdUpdateUserLevel2": {"Userec2Raw", "", []string{"UserLevel2", "UserLevel2", "UpdateTS"}},
 }
 
@@ -332,7 +334,7 @@ func frozen(name string, k K) cstruct {
 			{"Gap5", "char gap_5[sizeof(int)]", 1, 1, 4},
 			{"Number", "int number", 4, 4, 1},
 			{"Loaded", "int loaded", 4, 4, 1},
-			{"UInfo", "userinfo_t uinfo[USHM_SIZE]", frozenSize("UserInfoRaw", k), 4, ((k.MAX_ACTIVE * 41 / 40))},
+			{"UInfo", "userinfo_t uinfo[USHM_SIZE]", frozenSize("UserInfoRaw", k), 4, (k.MAX_ACTIVE * 41 / 40)},
 			{"Gap6", "char gap_6[sizeof(userinfo_t)]", 1, 1, frozenSize("UserInfoRaw", k)},
 			{"Sorted", "int sorted[2][9][USHM_SIZE]", 4, 4, (2 * 9 * (k.MAX_ACTIVE * 41 / 40))},
 			{"Gap7", "char gap_7[sizeof(int)]", 1, 1, 4},
